@@ -1182,7 +1182,13 @@ class GenericPlainRegistry(Generic[QuantityT, UnitT], metaclass=RegistryMeta):
                             self._suffixes[suffix],
                         )
                 else:
-                    for real_name in self._units_casei.get(name.lower(), ()):
+                    # The spelling in the requested case first, the others in a
+                    # fixed order (a set iterates in hash order).
+                    real_names = sorted(
+                        self._units_casei.get(name.lower(), ()),
+                        key=lambda real_name: (real_name != name, real_name),
+                    )
+                    for real_name in real_names:
                         yield (
                             self._prefixes[prefix].name,
                             self._units[real_name].name,
